@@ -86,7 +86,7 @@ func runC17(r *Run) {
 					}
 					skipHonest := false
 					for i, k := range order {
-						if i >= 10 {
+						if i >= 5 {
 							break
 						}
 						l := kinds[k]
@@ -113,6 +113,22 @@ func runC17(r *Run) {
 								how += " when the prover's hint code does not refuse operands >= p"
 							}
 							return &Violation{Site: "no canonical range check on " + k, What: fmt.Sprintf("proof element %s may be replaced by value + p (non-canonical encoding accepted)", l.Path), Replay: toMap(cr), Outcome: how}
+						}
+					}
+					// Elements that enter a Merkle leaf cannot simply be shifted by p (the leaf hash changes): for
+					// those, show the missing check where canonicity is enforced - the real rangeCheckProof run alone
+					for i, k := range order {
+						if i >= 10 {
+							break
+						}
+						l := kinds[k]
+						if l.Atom == nil {
+							continue
+						}
+						pth := strings.TrimPrefix(l.Path, ".ProofWithPis")
+						cr := &circuitReplay{Kind: "circuit", Wrapper: wrp, Instance: inst.Base, K: inst.K, Edits: []edit{{Path: pth, Add: P.String()}}, Expect: "accepted", Lenient: true, Only: "rangeCheckProof"}
+						if acc, _ := runCircuitReplay(cr, r.Repo); acc {
+							return &Violation{Site: "no canonical range check on " + k, What: fmt.Sprintf("proof element %s is not forced into canonical form: no range fact reaches it anywhere in the verifier (solver), and the real rangeCheckProof accepts value + p there", l.Path), Replay: toMap(cr), Outcome: "real verifier.(*VerifierChip).rangeCheckProof (test engine) accepts the proof with this element replaced by element + p; a full forged proof would in addition need a leaf opening consistent with it"}
 						}
 					}
 					return nil
